@@ -22,8 +22,11 @@ def main():
             args = dict(interval1=tuple(map(float, i1)), interval2=tuple(map(float, i2)),
                         min_absolute_overlap=None if a is None else float(a), min_relative_overlap=None if r is None else float(r))
             ok, obs, exp = check_contract(C.IntervalsOverlap, intervals_overlap, args)
-            # independent exact reference
-            if not C.bad_thresholds(a, r):
+            # independent exact reference -- only where the inputs are exactly representable (dyadic): for thirds the doubles
+            # handed to the function are not the rationals, and a comparison that is an equality in exact arithmetic may fall
+            # either way; there the executable contract, evaluated in the same double arithmetic, is the oracle
+            dyadic = all(x is None or (x.denominator & (x.denominator - 1)) == 0 for x in (*i1, *i2, a, r))
+            if dyadic and not C.bad_thresholds(a, r):
                 thr = F(0) if a is None and r is None else (a if r is None else r * min(i1[1] - i1[0], i2[1] - i2[0]))
                 ref = (min(i1[1], i2[1]) - max(i1[0], i2[0])) >= thr
                 if obs != repr(ref):
